@@ -254,7 +254,18 @@ impl SubCheck for Sequence {
 		}
 		obs.sample(json!({"params": text, "reads": reads}));
 
-		let params = Params::new(text.as_deref());
+		// for a share of the cases the Params come out of a parsed request (`Request::params()`, the route an
+		// RPC middleware takes) instead of `Params::new`
+		let req_text = format!(r#"{{"jsonrpc":"2.0","id":1,"method":"m"{}}}"#, text.as_ref().map(|t| format!(r#","params":{t}"#)).unwrap_or_default());
+		// (`"params":null` in a request is the same as no params member - C01 - so that text keeps the direct route)
+		let req: Option<jsonrpsee_types::Request> = if case.outer.0 % 2 == 1 && inner.as_deref().map(|t| t.trim()) != Some("null") { serde_json::from_str(&req_text).ok() } else { None };
+		if req.is_some() {
+			obs.class("params-taken-from-a-parsed-request");
+		}
+		let params = match &req {
+			Some(r) => r.params(),
+			None => Params::new(text.as_deref()),
+		};
 		let r = std::panic::catch_unwind(std::panic::AssertUnwindSafe(|| {
 			let mut fails: Vec<(String, String)> = vec![];
 			let mut seq = params.sequence();
